@@ -34,8 +34,10 @@ def may_raise(node):
     """syntactic over-approximation: the node contains a call, subscript, attribute access, raise or assert"""
     for n in ast.walk(node):
         if isinstance(n, (ast.Call, ast.Subscript, ast.Attribute, ast.Raise, ast.Assert, ast.BinOp, ast.Delete,
-                          ast.Starred)):
+                          ast.Starred, ast.Compare, ast.AugAssign, ast.For, ast.With, ast.Import, ast.ImportFrom)):
             return True
+        if isinstance(n, ast.Assign) and any(isinstance(t, (ast.Tuple, ast.List)) for t in n.targets):
+            return True          # unpacking: ValueError / TypeError
         if isinstance(n, (ast.FunctionDef, ast.Lambda)) and n is not node:
             continue
     return False
@@ -204,8 +206,16 @@ class CFG(object):
             # the finally body is represented once; it continues normally and may also re-raise
             t['finally_entry'] = fin_entry
         ctx['tries'].append(t)
+        first_body = len(self.nodes)
         body_out = self._body(st.body, frontier, ctx)
         t['in_body'] = False
+        # a handler is never dead code for the analysis: if no statement of the body was recognised as a possible raiser,
+        # every statement of the body gets an exceptional edge to the handlers
+        body_nodes = [nid for nid in list(self.nodes)[first_body:]]
+        if handlers and not any(d in handlers for nid in body_nodes for d, lab in self.succ.get(nid, ()) if lab == 'exc'):
+            for nid in body_nodes:
+                for hn in handlers:
+                    self._edge(nid, hn, 'exc')
         else_out = self._body(st.orelse, body_out, ctx) if st.orelse else body_out
         outs = list(else_out)
         for h, hn in zip(st.handlers, handlers):
